@@ -236,15 +236,12 @@ theorem parseColumns_encodeRow (r : Row) (fmts : List Nat) (hne : r ≠ []) (hr 
     (hf : ∀ i, i < r.length → ∃ b, formatByIndex i fmts = .ok b) :
     parseColumns (encodeRow r) fmts = .ok (r.length, r.map colOf) := by
   have hl : (beBytes 2 r.length).length = 2 := beBytes_length _ _
-  have ht : (encodeRow r ++ [0, 0]).take 2 = beBytes 2 r.length := by
-    unfold encodeRow
-    rw [List.append_assoc]
-    exact List.take_left' hl
+  have ht : (encodeRow r).take 2 = beBytes 2 r.length := List.take_left' hl
   have hd : (encodeRow r).drop 2 = r.flatMap encodeCol := List.drop_left' hl
   have hpos : r.length ≠ 0 := fun h => hne (List.eq_nil_of_length_eq_zero h)
   unfold parseColumns
   simp only [ht, hd, beVal_beBytes2 _ hr]
-  rw [if_neg hpos, if_neg (by have := encodeRow_length_ge r; omega)]
+  rw [if_neg (by have := encodeRow_length_ge r; omega), if_neg hpos]
   have := readCols_encode fmts r 0 [] hb (fun j hj => by simpa using hf j hj)
   rw [List.append_nil] at this
   rw [this]
@@ -253,8 +250,10 @@ theorem parseColumns_encodeRow (r : Row) (fmts : List Nat) (hne : r ≠ []) (hr 
 /-- `parseColumns` on the encoding of the empty row -/
 theorem parseColumns_encodeRow_nil (fmts : List Nat) :
     parseColumns (encodeRow []) fmts = .ok (0, []) := by
-  have h : beVal ((encodeRow [] ++ [0, 0]).take 2) = 0 := by decide
+  have h : beVal ((encodeRow []).take 2) = 0 := by decide
+  have h2 : ¬ (encodeRow []).length < 2 := by decide
   unfold parseColumns
+  rw [if_neg h2]
   simp only [h]
   rfl
 
@@ -468,5 +467,163 @@ example : rewriteRow (fun i d => .ok ((fun _ d => d ++ [2]) i d)) [] ⟨68, [], 
     (by intro b hb; simp at hb; subst hb; decide)
     (by intro b hb; simp [mapRow] at hb; subst hb; decide)
     (by decide) (by intro i _; exact ⟨false, rfl⟩) (by rfl) ⟨[1], by simp⟩
+
+/-! ### no panics, whatever the input -/
+
+theorem bind_ne_panic {α β} {x : Out α} {f : α → Out β} (hx : x ≠ .panic)
+    (hf : ∀ a, f a ≠ .panic) : (x >>= f) ≠ .panic := by
+  cases x with
+  | ok a => exact hf a
+  | err => simp
+  | panic => exact absurd rfl hx
+
+theorem readN_no_panic (s : Bytes) (k : Nat) : readN s k ≠ .panic := by
+  unfold readN; split <;> simp
+
+theorem readData_no_panic (pre : Bytes) (dl : Int) (s : Bytes) : readData pre dl s ≠ .panic := by
+  unfold readData
+  split
+  · simp
+  · apply bind_ne_panic (readN_no_panic _ _)
+    intro ⟨d, rest⟩
+    simp
+
+theorem readGeneral_no_panic (s : Bytes) : readGeneral s ≠ .panic := by
+  unfold readGeneral
+  apply bind_ne_panic (readN_no_panic _ _)
+  intro ⟨hdr, rest⟩
+  dsimp only
+  split
+  · simp
+  · apply bind_ne_panic (readData_no_panic _ _ _)
+    intro ⟨b, r⟩
+    simp
+
+theorem readDb_no_panic (s : Bytes) : readDb s ≠ .panic := by
+  unfold readDb
+  apply bind_ne_panic (readN_no_panic _ _)
+  intro ⟨t, rest⟩
+  dsimp only
+  apply bind_ne_panic (readN_no_panic _ _)
+  intro ⟨lenBuf, rest1⟩
+  dsimp only
+  apply bind_ne_panic (readData_no_panic _ _ _)
+  intro ⟨b, r⟩
+  simp
+
+theorem readStartup_no_panic (s : Bytes) : readStartup s ≠ .panic := by
+  unfold readStartup
+  apply bind_ne_panic (readN_no_panic _ _)
+  intro ⟨buf, rest⟩
+  dsimp only
+  split
+  · simp
+  · apply bind_ne_panic (readData_no_panic _ _ _)
+    intro ⟨b, r⟩
+    simp
+
+theorem readClient_no_panic (started : Bool) (s : Bytes) : readClient started s ≠ .panic := by
+  unfold readClient
+  split
+  · exact readGeneral_no_panic s
+  · exact readStartup_no_panic s
+
+theorem formatByIndex_no_panic (i : Nat) (fmts : List Nat) : formatByIndex i fmts ≠ .panic := by
+  unfold formatByIndex
+  split
+  · simp
+  · dsimp only
+    generalize (if fmts.length = 1 then fmts.head? else fmts[i]?) = o
+    cases o with
+    | none => simp
+    | some f =>
+      dsimp only
+      repeat' split
+      all_goals simp
+
+theorem readCol_no_panic (i : Nat) (fmts : List Nat) (s : Bytes) : readCol i fmts s ≠ .panic := by
+  unfold readCol
+  apply bind_ne_panic (readN_no_panic _ _)
+  intro ⟨lb, rest⟩
+  dsimp only
+  apply bind_ne_panic (formatByIndex_no_panic _ _)
+  intro _
+  split
+  · simp
+  · split
+    · simp
+    · apply bind_ne_panic (readN_no_panic _ _)
+      intro ⟨d, r⟩
+      simp
+
+theorem readCols_no_panic (fmts : List Nat) (n i : Nat) (s : Bytes) : readCols fmts n i s ≠ .panic := by
+  induction n generalizing i s with
+  | zero => simp [readCols]
+  | succ n ih =>
+    unfold readCols
+    apply bind_ne_panic (readCol_no_panic _ _ _)
+    intro ⟨c, rest⟩
+    dsimp only
+    apply bind_ne_panic (ih _ _)
+    intro cs
+    simp
+
+theorem parseColumns_no_panic (body : Bytes) (fmts : List Nat) : parseColumns body fmts ≠ .panic := by
+  unfold parseColumns
+  split
+  · simp
+  · dsimp only
+    split
+    · simp
+    · apply bind_ne_panic (readCols_no_panic _ _ _ _)
+      intro cs
+      simp
+
+theorem checkFormats_foldl_no_panic (fmts : List Nat) (l : List Nat) (acc : Out Unit) (h : acc ≠ .panic) :
+    l.foldl (fun acc i => do let _ ← acc; let _ ← formatByIndex i fmts; pure ()) acc ≠ .panic := by
+  induction l generalizing acc with
+  | nil => exact h
+  | cons i l ih =>
+    rw [List.foldl_cons]
+    apply ih
+    apply bind_ne_panic h
+    intro _
+    apply bind_ne_panic (formatByIndex_no_panic _ _)
+    intro _
+    simp
+
+theorem checkFormats_no_panic (fmts : List Nat) : checkFormats fmts ≠ .panic := by
+  unfold checkFormats
+  exact checkFormats_foldl_no_panic fmts _ _ (by simp)
+
+theorem processCols_no_panic (g : Nat → Bytes → Out Bytes) (hg : ∀ i d, g i d ≠ .panic) (i : Nat)
+    (cols : List Col) : processCols g i cols ≠ .panic := by
+  induction cols generalizing i with
+  | nil => simp [processCols]
+  | cons c cs ih =>
+    unfold processCols
+    split
+    · apply bind_ne_panic (ih _)
+      intro r
+      simp
+    · apply bind_ne_panic (hg _ _)
+      intro d
+      apply bind_ne_panic (ih _)
+      intro r
+      simp
+
+theorem rewriteRow_no_panic (g : Nat → Bytes → Out Bytes) (fmts : List Nat) (p : Packet)
+    (hg : ∀ i d, g i d ≠ .panic) : rewriteRow g fmts p ≠ .panic := by
+  unfold rewriteRow
+  apply bind_ne_panic (checkFormats_no_panic _)
+  intro _
+  apply bind_ne_panic (parseColumns_no_panic _ _)
+  intro ⟨cnt, cols⟩
+  dsimp only
+  split
+  · simp
+  · apply bind_ne_panic (processCols_no_panic g hg _ _)
+    intro cols'
+    simp
 
 end AcraModel.Wire.Pg
